@@ -15,7 +15,51 @@ def families(ctx, rng):
     return pipes.make_family_items(rng, "cell", cells, pipes.cell_scenario)
 
 
+def mixed_initials(ctx):
+    """Initial values that no variable type admits: lists whose items are of different JSON types (numbers with
+    booleans in either order -- Python's bool is an int --, with strings, with null, nested lists) and scalars for
+    list types, on an otherwise accepted pipeline.  Oracle: the property statement (an initial value fits the
+    declared type)."""
+    import random, json, copy, impl
+    import scenario as S
+    cells = [c for c in pipes.all_cells() if pipes.cell_expected(c)]
+    docs = []
+    bad_lists = [[1, True], [True, 1], [0.5, 2, False], [1, "a"], ["a", 1], ["a", True], [True, "a"], [1, None], [None], [[1]], [1, [2]], [{}]]
+    for vt in ("NUMERIC_LIST", "STRING_LIST", "BOOLEAN_LIST"):
+        cell = next((c for c in cells if c[0] == vt and c[1] in ("SNums", "SStrs", "SBools", "SEmpty")), None)
+        if cell is None:
+            continue
+        base = S.render(pipes.cell_scenario(cell), random.Random(1), "id", False, False)
+        for v in bad_lists + [1, "a", True]:
+            if vt == "BOOLEAN_LIST" and v is True:
+                pass
+            d = copy.deepcopy(base)
+            d["pipelines"][0]["variables"][0]["initial"] = v
+            docs.append((vt, v, d))
+        # the same inside a traversal's variable declarations is covered by the scenario mutants
+    for vt, good in (("NUMERIC", [1, 2.5]), ("STRING", ["a"]), ("BOOLEAN", [True])):
+        cell = next((c for c in cells if c[0] == vt and c[1] != "SNull"), None)
+        if cell is None:
+            continue
+        base = S.render(pipes.cell_scenario(cell), random.Random(1), "id", False, False)
+        for v in (good, [], True if vt != "BOOLEAN" else 1, "x" if vt != "STRING" else 7):
+            d = copy.deepcopy(base)
+            d["pipelines"][0]["variables"][0]["initial"] = v
+            docs.append((vt, v, d))
+    pool = impl.Pool(ctx, 4)
+    res = pool.validate_many([d for _, _, d in docs])
+    pool.close()
+    bad = 0
+    for (vt, v, d), r in zip(docs, res):
+        if r["outcome"] == "accept" and bad < 3:
+            bad += 1
+            ctx.violation({"what": "a pipeline variable of type %s is accepted with the initial value %s" % (vt, json.dumps(v)), "document": d, "implementation": r})
+    return len(docs)
+
+
 def run(ctx):
+    n_mixed = mixed_initials(ctx)
+    ctx.coverage["mixed_initial_documents"] = n_mixed
     pipes.run_check(
         ctx, owners=OWNERS, n_valid=60, n_mut=200, families=families, prop_files=("C08_pipeline",),
         rule="conformant scenarios with 0-2 aggregation pipelines (half with thread groups, two renderings each), single-fault mutants owned by C08 (harness/pipes.py: initial value, method, SET order, aggregation operator, filter clause at every depth/position, step on a wrong source, output type incl. object type), each applied to a fresh conformant scenario, and cells (variable type x initial x method x source type x step) on a fixed two-promise scenario (quick: a sample balanced between accepted and rejected cells; thorough: all 26400); non-trivial = every item with a pipeline; distinct by abstract scenario",
